@@ -43,7 +43,7 @@ func C20() *runner.Property {
 			r := rng.New(uint64(seed) ^ 0xC20)
 			k := 1
 			if tier == "thorough" {
-				k = 8
+				k = 150
 			}
 			var cs []runner.Case
 			for i := 0; i < 4*k; i++ {
